@@ -209,6 +209,9 @@ def helper_instances(pool: Pool) -> list[tuple[str, str, sp.Basic]]:
         # array symbols with an explicit shape (slices are normalised against the axis sizes)
         ("ArraySlice", "shaped", ArraySlice(ArraySymbol("xs", shape=(3, 4)), (slice(None), 0))),
         ("ArraySlice", "shaped-negative", ArraySlice(ArraySymbol("xs", shape=(5, 4)), (slice(1, -1), -1))),
+        ("ArraySlice", "shaped-below-range", ArraySlice(ArraySymbol("xs", shape=(4, 3)), (slice(-5, None), 0))),      # numpy idiom A[-5:] on 4 rows
+        ("ArraySlice", "shaped-far-below-range", ArraySlice(ArraySymbol("xs", shape=(4, 3)), (slice(-9, None), 1))),
+        ("ArraySlice", "shaped-both-negative", ArraySlice(ArraySymbol("xs", shape=(6, 3)), (slice(-7, 3), 2))),
         ("ArrayAxisSum", "shaped", ArrayAxisSum(ArraySlice(ArraySymbol("xs", shape=(3, 4)), (slice(None), slice(1, None))), axis=1)),
         ("ArrayMultiplication", "boost", ArrayMultiplication(L.BoostMatrix(q), p)),
         ("ArrayMultiplication", "chain", ArrayMultiplication(L.BoostZMatrix(x / (x + 1), n), L.RotationYMatrix(-y, n), L.RotationZMatrix(z, n), p)),
